@@ -94,13 +94,13 @@ var rules = []*rule{
 // In the control packages every engine call is a control-plane effect; in the object package an engine call
 // is a storage effect. The rule list is ordered, so the package-specific override is applied in classify.
 var errorConstructors = map[string]bool{
-	"errors.New":                            true,
-	"fmt.Errorf":                            true,
-	"google.golang.org/grpc/status.Error":   true,
-	"google.golang.org/grpc/status.Errorf":  true,
-	objPkg + ".newBadRequestError":          true,
-	objPkg + ".basicACLErr":                 true,
-	objPkg + ".eACLErr":                     true,
+	"errors.New":                           true,
+	"fmt.Errorf":                           true,
+	"google.golang.org/grpc/status.Error":  true,
+	"google.golang.org/grpc/status.Errorf": true,
+	objPkg + ".newBadRequestError":         true,
+	objPkg + ".basicACLErr":                true,
+	objPkg + ".eACLErr":                    true,
 }
 
 func init() {
